@@ -101,7 +101,9 @@ fn allocate_jit_memory_unix(_src: &FuncPtrInternal, code_size: usize) -> *mut u8
             if ptr != libc::MAP_FAILED {
                 let allocated = ptr as u64;
                 let diff = allocated.abs_diff(original_addr);
-                if diff <= max_range {
+                // Strictly inside the range: a forward displacement of exactly `max_range`
+                // (+128MB) is one instruction beyond what an AArch64 `B` can encode.
+                if diff < max_range {
                     return ptr as *mut u8;
                 } else {
                     unsafe { libc::munmap(ptr, code_size) };
